@@ -97,22 +97,26 @@ def run(prop, tier, seed):
     order2 = [(f, k) for k in sorted({k for f in CONS for k in keys_by_fam[f]}) for f in ("sqrtinv", "sqrt", "loglog", "log") if k in keys_by_fam[f]]
     for which, order in (("first-pass", order1), ("interleaved-pass", order2)):
         for fam, key in order:
-            f = getattr(qr, FUNCS[fam])
-            xs, ws = f(*key)
+            # the property's own criterion (not bitwise identity with the table: a harmless renormalisation is allowed):
+            # the scheme handed out for a key integrates every function of that key's class to 1e-13
             try:
                 sc = CONS[fam](*key)
-                same = bool(np.array_equal(np.asarray(sc.points), np.asarray(xs, float)) and np.array_equal(np.asarray(sc.weights), np.asarray(ws, float)))
-            except Exception:
-                same = False
+                xs = [mp.mpf(float(x)) for x in sc.points]
+                ws = [mp.mpf(float(w)) for w in sc.weights]
+                worst_e = max([rl.rel_error(fam, part, k, xs, ws) for part, k in rl.obligations(fam, key, len(xs))] or [mp.mpf(0)])
+                same = worst_e <= mp.mpf("1e-13") and all(0 < float(x) < 1 for x in sc.points)
+            except Exception as ex:
+                same, worst_e = False, repr(ex)[:80]
             if not same:
                 ctx.violation("constructor-mismatch:%s:%s" % (fam, ",".join(map(str, key))),
-                              "%s_quadrature_scheme%r does not return the tabulated rule (%s)" % (fam, key, which), {"family": fam, "key": list(key), "pass": which})
+                              "%s_quadrature_scheme%r does not integrate the class of its key (%s; worst relative error %s)" % (fam, key, which, worst_e),
+                              {"family": fam, "key": list(key), "pass": which})
     # Gauss-type constructors: requested by polynomial degree, exact against the stated weight up to that degree
     gcons = [("gsqrtinv", q.gauss_sqrtinv_quadrature_scheme, [n for n in range(1, 24, 2)]),
              ("gx", q.gauss_x_quadrature_scheme, [n for n in range(1, 22, 2)]),
              ("glog", q.gauss_log_quadrature_scheme, [n for n in range(0, 16)])]
     ncons = 0
-    for fam, cons, degs in gcons:
+    for fam, cons, degs in gcons + list(reversed(gcons)):      # second pass in the opposite family order (call history)
         for npoly in degs:
             if (fam, ((npoly + 1) // 2,)) not in rules or not rules[(fam, ((npoly + 1) // 2,))]["returns"]:
                 continue        # the constructor can only be asked for degrees whose key is tabulated
